@@ -1603,6 +1603,10 @@ pub fn check(prop: &str, tier: &str) -> i32 {
     let budget = if tier == "thorough" { Duration::from_secs(25 * 60) } else { Duration::from_secs(150) };
     let (found, stats) = run(tier, Instant::now() + budget);
     fill_report(&mut report, prop, found, &stats);
+    if prop == "C11" {
+        // the part of the restart sequence that only exists inside the private `start_server`
+        crate::bootconf::run(tier, &mut report);
+    }
     if !stats.machinery.is_empty() {
         for m in stats.machinery.iter().take(5) {
             eprintln!("machinery: {m}");
